@@ -362,11 +362,9 @@ class ByteInterval(Node):
                 raise ValueError(
                     "Expected sym expr type in interval: %s" % type(v)
                 )
-            attrs = (
-                a.value if isinstance(a, SymbolicExpression.Attribute) else a
-                for a in v.attributes
-            )
-            sym_exp.attribute_flags.extend(attrs)
+            # (a set may hold a known attribute both as the enumeration member
+            # and as its number: one flag)
+            sym_exp.attribute_flags.extend(v._attribute_numbers())
             proto_interval.symbolic_expressions[k].CopyFrom(sym_exp)
 
         return proto_interval
